@@ -269,3 +269,6 @@ reg("C04", runner="sync", rule=_ATTACK_RULE, diffs=_ATTACK_DIFF,
 
 for _p in ("C02", "C03", "C04"):
     PROPS[_p]["exhaustive"] = "the exhaustive part only: all sequences of up to 4 (quick) / 5 (thorough) abstract operations for initial workers 0..3 x max-workers 1..3; the random long scripts are a sample"
+
+for _p in ("C02", "C03", "C04"):
+    PROPS[_p]["model_budget"] = {"quick": 240, "thorough": 1500}
